@@ -123,8 +123,8 @@ CHECKS = {
     "C19": dict(
         category="exploration", design_ref="DESIGN.md §3.7, §4 C19",
         technique="TLA+ register-file execution of allocated blocks (RegAlloc.tla: the register file remembers which value each register holds) evaluated by TLC on the assignments produced by the real allocators",
-        text="Seeded single-block functions are allocated by the real RegisterAllocatorLivenessBlockNaive (RISC-V li/add/sub/mul/mv, pre-allocated arguments and results, zero constants, pools of 1-6 registers with and without infinite registers), functions with riscv_scf.for loops in the shape the lowering produces (carried variables initialised by dedicated copies, live-ins and bounds read in the body, pass-through and recomputed yields, one level of nesting) are allocated and unrolled by the harness into the reads and writes of two iterations of every loop (entry, back edge, exit), every dynamic instance of a value with its own id and by BlockNaiveAllocator on test.allocatable ops with in/out/inout constraints; TLC executes each allocated block on a value-tracking register file: every operand must still be in its register when read, results of one op are in distinct registers, in/out pairs share a register, pre-assigned registers are kept, new registers come from the allocatable pool, only constant zero lives in `zero`.",
-        note="Trusted: RegAlloc.tla; extraction of in/out/inout constraints through get_register_constraints(); generated inputs satisfy the allocator's documented precondition (an inout operand is used for the last time there; no conflicting pre-assignments). OutOfRegisters/diagnostics are reported failures. The x86 allocator is not generated yet. One defect repaired (dangling yield operand), one open finding (carried register taken before the last use of the block argument)."),
+        text="Seeded single-block functions are allocated by the real RegisterAllocatorLivenessBlockNaive (RISC-V li/add/sub/mul/mv, pre-allocated arguments and results, zero constants, pools of 1-6 registers with and without infinite registers), functions with riscv_scf.for loops in the shape the lowering produces (carried variables initialised by dedicated copies, live-ins and bounds read in the body, pass-through and recomputed yields, one level of nesting) are allocated and unrolled by the harness into the reads and writes of two iterations of every loop (entry, back edge, exit), every dynamic instance of a value with its own id, and single-block x86_func functions in the shape convert-arith-to-x86 produces (argument copies out of rdi/rsi, two-address rs.add/sub/imul/and/xor, r.neg/inc, ri.add on dedicated copies, dsi.imul, result into rax) are allocated by the real X86RegisterAllocator with the default and with small pools and by BlockNaiveAllocator on test.allocatable ops with in/out/inout constraints; TLC executes each allocated block on a value-tracking register file: every operand must still be in its register when read, results of one op are in distinct registers, in/out pairs share a register, pre-assigned registers are kept, new registers come from the allocatable pool, only constant zero lives in `zero`.",
+        note="Trusted: RegAlloc.tla; extraction of in/out/inout constraints through get_register_constraints(); generated inputs satisfy the allocator's documented precondition (an inout operand is used for the last time there; no conflicting pre-assignments). OutOfRegisters/diagnostics are reported failures. One defect repaired (dangling yield operand), one open finding (carried register taken before the last use of the block argument)."),
     "C18": dict(
         category="model_checking", design_ref="DESIGN.md §4 C18, §11.9",
         technique="TLA+ transcription of the pipeline lexer (ordered rule list, lazy), recursive-descent parser, printer and typed option conversion (PipelineSpec.tla): TLC checks print-then-parse identity over a bounded value universe and diagnostic-totality over every short text; the real printer / parser / from_spec / spec() are run on generated passes, ArgSpecs and texts and TLC judges the recorded results against the model and the property's clauses",
